@@ -179,4 +179,29 @@ def InScope (h : List (Op Int)) : Prop := inScopeFrom init none h = true
 
 instance (h : List (Op Int)) : Decidable (InScope h) := by unfold InScope; infer_instance
 
+/-! ## "A main loop that sleeps until the returned time never delays a runnable fibre or a pending timeout"
+
+One iteration of a main loop: the clock reads `T1`, the pass `fibre_scheduler_next(T1)` runs, the clock reads
+`T2 ≥ T1`, the loop sleeps for `d` microseconds (`some d`) or goes round at once (`none`). -/
+
+/-- the true (unbounded) time `V` whose truncation the pass at `T` must return -/
+def A.passWake (a : A) (T : Int) (script : List (Call Int)) (ret : Ret) : Int :=
+  (a.next T script ret).1.wake T (decide (ret = .yielded) && !(a.intake T).rq.isEmpty)
+
+/-- what the loop may do at `T2` when the pass said `V`: it may always go round at once; it may sleep `d`
+    only if the sleep ends no later than `V` (so a real sleep never happens when `V ≤ T2`); a sleep of zero
+    microseconds delays nothing and is always allowed -/
+def SleepOk (V T2 : Int) : Option Nat → Prop
+  | none => True
+  | some d => d = 0 ∨ T2 + (d : Int) ≤ V
+
+instance (V T2 : Int) (o : Option Nat) : Decidable (SleepOk V T2 o) := by
+  cases o <;> unfold SleepOk <;> infer_instance
+
+/-- scope of one loop iteration: the pass at `T1` is in scope, the clock does not run backwards, and the
+    second reading is at most 2^31 ticks after the first (beyond that the 32-bit difference
+    `returned − T2` read as `int32_t` no longer is the true difference) -/
+def loopOk (a : A) (last : Option Int) (T1 T2 : Int) (script : List (Call Int)) (ret : Ret) : Bool :=
+  opOk a last (.next T1 script ret) && decide (T1 ≤ T2) && decide (T2 - T1 ≤ 2147483648)
+
 end Librfn.Spec.Sched
